@@ -546,7 +546,7 @@ impl Model {
         let signer_entry_raw = rlp::enc_str(&signer.pk);
 
         // a write to a public-key entry is only pinned down when it writes the signer's own key
-        let mut write = |next: &mut Model,
+        let write = |next: &mut Model,
                          causes: &mut BTreeSet<ErrKind>,
                          judged: &mut bool,
                          why: &mut &'static str,
